@@ -86,6 +86,32 @@ func status(pan bool) int {
 	return 0
 }
 
+// c15Interfere runs OTHER fits while the caller still holds the results of the case's own fit: one of the SAME
+// shape (same n, same number of terms, weighted alike - whatever storage a library might recycle between calls
+// is then recycled at the same offsets) on different data, a larger and a smaller one, and a LOESS closure
+// (itself one fit per evaluation).  Works on copies; never touches the case's slices.  Deterministic.
+func c15Interfere(xs, ys, ws []float64, nterms int) {
+	n := len(xs)
+	if n == 0 || len(ys) != n || (ws != nil && len(ws) != n) || nterms < 1 {
+		return
+	}
+	x2 := cloneF(xs)
+	y2 := make([]float64, n)
+	for i := range y2 {
+		y2[i] = -0.5*ys[n-1-i] + float64(i%3) + 0.25
+	}
+	catch(func() { fit.PolynomialRegression(x2, y2, cloneF(ws), nterms-1) })
+	catch(func() { fit.PolynomialRegression(x2, y2, cloneF(ws), nterms) })
+	if nterms >= 2 {
+		catch(func() { fit.PolynomialRegression(x2, y2, cloneF(ws), nterms-2) })
+	}
+	catch(func() {
+		f := fit.LOESS(x2, y2, 1, 0.8)
+		f(x2[n/2])
+		f(x2[0] - 1)
+	})
+}
+
 func c15Run(raw []byte) (*Line, error) {
 	var c c15Case
 	if err := json.Unmarshal(raw, &c); err != nil {
@@ -113,6 +139,12 @@ func c15Run(raw []byte) (*Line, error) {
 	if c.Deg > 8 || c.Deg < -2 {
 		return nil, fmt.Errorf("degree out of the generated range")
 	}
+	if c.Op != 2 && len(xs) == 0 {
+		return nil, fmt.Errorf("no abscissa") // gonum refuses a matrix without rows; outside the property (n >= 3)
+	}
+	if c.Op == 2 && (len(xs) != len(ys) || math.IsNaN(float64(c.Span)) || math.IsInf(float64(c.Span), 0)) {
+		return nil, fmt.Errorf("LOESS: len(xs) != len(ys) or non-finite span") // LOESS does not check the lengths itself
+	}
 	xs0, ys0, ws0 := cloneF(xs), cloneF(ys), cloneF(ws)
 	unmodified := func() bool { return sameBits(xs, xs0) && sameBits(ys, ys0) && sameBits(ws, ws0) }
 	l := &Line{}
@@ -130,17 +162,27 @@ func c15Run(raw []byte) (*Line, error) {
 				return nil, fmt.Errorf("bad term")
 			}
 		}
+		// The columns of the design the MODEL sees are the harness's own evaluation of the terms at the
+		// abscissae of the case (never what the library handed to the term functions): a library that
+		// passes other abscissae to the terms (reordered, shifted, a stale copy) fits another design.
 		cols := make([][]float64, len(c.Basis))
+		for j := range c.Basis {
+			col := make([]float64, len(xs0))
+			for i, x := range xs0 {
+				col[i] = c15TermValue(c.Basis[j], x)
+			}
+			if !finiteAll(col) {
+				return nil, fmt.Errorf("non-finite basis value")
+			}
+			cols[j] = col
+		}
 		terms := make([]func(xs, out []float64), len(c.Basis))
 		for j := range c.Basis {
 			j := j
 			terms[j] = func(txs, out []float64) {
-				col := make([]float64, len(out))
 				for i := range out {
 					out[i] = c15TermValue(c.Basis[j], txs[i])
-					col[i] = out[i]
 				}
-				cols[j] = col
 			}
 		}
 		var params []float64
@@ -148,26 +190,24 @@ func c15Run(raw []byte) (*Line, error) {
 		l.Fs(xs).Fs(ys).B(c.HasW).Fs(ws)
 		l.I(len(c.Basis))
 		for j := range c.Basis {
-			if cols[j] == nil { // the call panicked before evaluating the terms
-				col := make([]float64, len(xs))
-				for i, x := range xs {
-					col[i] = c15TermValue(c.Basis[j], x)
-				}
-				cols[j] = col
-			}
-			if !finiteAll(cols[j]) {
-				return nil, fmt.Errorf("non-finite basis value")
-			}
 			l.Fs(cols[j])
 		}
 		l.I(status(pan)).Fs(params).B(unmodified())
+		// HISTORY: other fits run while params is still held; params is then read again (a returned slice that
+		// aliases storage the library reuses would have changed)
+		c15Interfere(xs0, ys0, ws0, len(c.Basis))
+		l.Fs(params)
 	case 1:
 		var res fit.PolynomialRegressionResult
 		pan, _ := catch(func() { res = fit.PolynomialRegression(xs, ys, ws, c.Deg) })
 		l.Fs(xs).Fs(ys).B(c.HasW).Fs(ws).I(c.Deg).I(status(pan))
 		if pan {
 			l.I(0).I(0).I(0).I(0).B(unmodified())
+			l.I(0).I(0).I(0)
 			break
+		}
+		if len(c.Qs) == 0 {
+			return nil, fmt.Errorf("no query of F")
 		}
 		l.Fs(res.Coefficients)
 		l.I(len(c.Qs))
@@ -191,37 +231,52 @@ func c15Run(raw []byte) (*Line, error) {
 		var lp []float64
 		lpan, _ := catch(func() { lp = fit.LinearLeastSquares(xs, ys, ws, terms...) })
 		l.I(status(lpan)).Fs(lp).B(unmodified())
+		// HISTORY: other fits run while res and lp are still held; then Coefficients, F at every query and the
+		// twin's parameters are read again
+		c15Interfere(xs0, ys0, ws0, c.Deg+1)
+		l.Fs(res.Coefficients)
+		l.I(len(c.Qs))
+		for _, q := range c.Qs {
+			v := math.NaN()
+			catch(func() { v = res.F(float64(q)) })
+			l.F(v)
+		}
+		l.Fs(lp)
 	case 2:
 		var f func(float64) float64
 		span := float64(c.Span)
 		pan, _ := catch(func() { f = fit.LOESS(xs, ys, c.Deg, span) })
 		l.Fs(xs).Fs(ys).I(c.Deg).F(span).I(status(pan))
 		if pan {
-			l.I(0).B(unmodified())
+			l.I(0).B(unmodified()).I(0)
 			break
+		}
+		if len(c.Qs) == 0 {
+			return nil, fmt.Errorf("no query of the LOESS closure")
 		}
 		pure := unmodified()
 		l.I(len(c.Qs))
-		var first float64
-		firstPan := false
 		for i, q := range c.Qs {
+			if i == (len(c.Qs)+1)/2 {
+				// HISTORY: other fits and another closure run between two evaluations of this closure; the
+				// remaining queries are new abscissae evaluated after them
+				c15Interfere(xs0, ys0, nil, c.Deg+1)
+			}
 			var v float64
 			qpan, _ := catch(func() { v = f(float64(q)) })
-			if i == 0 {
-				first, firstPan = v, qpan
-			}
 			l.F(float64(q)).I(status(qpan)).F(v)
 			pure = pure && unmodified()
 		}
-		// evaluating again gives the same bits: the closure keeps no state between calls
-		if len(c.Qs) > 0 {
-			var v float64
-			qpan, _ := catch(func() { v = f(float64(c.Qs[0])) })
-			if qpan != firstPan || math.Float64bits(v) != math.Float64bits(first) {
-				pure = false
-			}
-		}
 		l.B(pure && unmodified())
+		// ... and every query is evaluated once more after further fits: the closure keeps no state between
+		// calls and shares none with other fits (status and value are compared with the first evaluation)
+		c15Interfere(xs0, ys0, nil, c.Deg+1)
+		l.I(len(c.Qs))
+		for _, q := range c.Qs {
+			var v float64
+			qpan, _ := catch(func() { v = f(float64(q)) })
+			l.I(status(qpan)).F(v)
+		}
 	default:
 		return nil, fmt.Errorf("bad op")
 	}
@@ -322,8 +377,8 @@ func c15Gen(tier string, rng *rand.Rand, emit func(interface{})) {
 	emit(c15Case{Op: 2, Xs: toF64s([]float64{0, 1, 2}), Ys: toF64s([]float64{1, 2, 3}), Deg: -1, Span: 0.5})
 	emit(c15Case{Op: 2, Xs: toF64s([]float64{0, 1, 2}), Ys: toF64s([]float64{1, 2, 3}), Deg: 1, Span: 0})
 	emit(c15Case{Op: 2, Xs: toF64s([]float64{0, 1, 2}), Ys: toF64s([]float64{1, 2, 3}), Deg: 1, Span: -0.25})
-	emit(c15Case{Op: 2, Xs: []F64{}, Ys: []F64{}, Deg: 1, Span: 0.5, Qs: toF64s([]float64{0})})                                // closest[0] panics
-	emit(c15Case{Op: 2, Xs: toF64s([]float64{1}), Ys: toF64s([]float64{5}), Deg: 0, Span: 1, Qs: toF64s([]float64{1, 2})})       // d = 0 / single point of weight 0
+	emit(c15Case{Op: 2, Xs: []F64{}, Ys: []F64{}, Deg: 1, Span: 0.5, Qs: toF64s([]float64{0})})                                             // closest[0] panics
+	emit(c15Case{Op: 2, Xs: toF64s([]float64{1}), Ys: toF64s([]float64{5}), Deg: 0, Span: 1, Qs: toF64s([]float64{1, 2})})                  // d = 0 / single point of weight 0
 	emit(c15Case{Op: 2, Xs: toF64s([]float64{0, 1, 2, 3}), Ys: toF64s([]float64{1, 2, 3, 4}), Deg: 2, Span: 0.5, Qs: toF64s([]float64{1})}) // too few points
 
 	// ---- PolynomialRegression ----
@@ -426,6 +481,9 @@ func c15Gen(tier string, rng *rand.Rand, emit func(interface{})) {
 			mode = 0
 		}
 		xs := c15Xs(rng, n, mode)
+		if it%6 == 0 && mode != 2 && rng.Intn(2) == 0 { // "or rescaled": polynomial bases stay exact and cheap
+			c15Rescale(rng, xs, 2)
+		}
 		ys := make([]float64, n)
 		beta := make([]float64, len(basis))
 		for k := range beta {
@@ -734,6 +792,58 @@ func c15GenEdge(rng *rand.Rand, mul int, emit func(interface{})) {
 			qs = append(qs, m, m+1.0/64)
 		}
 		emit(c15Case{Op: 2, Xs: toF64s(xs), Ys: toF64s(ints(n, -8, 8)), Deg: deg, Span: F64(span), Qs: toF64s(qs)})
+	}
+	// ---- exactly determined weighted fits: all weights zero except on deg+1 (PolynomialRegression) / k
+	// (LinearLeastSquares) observations with distinct abscissae; n = k without weights ----
+	for it := 0; it < 16*mul; it++ {
+		deg := it % 5
+		n := deg + 2 + rng.Intn(5)
+		xs := c15Xs(rng, n, 0)
+		w := make([]float64, n)
+		for _, i := range rng.Perm(n)[:deg+1] {
+			w[i] = float64(1+rng.Intn(8)) / 4
+		}
+		emit(c15Case{Op: 1, Xs: toF64s(xs), Ys: toF64s(ints(n, -16, 16)), HasW: true, W: toF64s(w), Deg: deg,
+			Qs: toF64s(c15Queries(rng, xs, 7))})
+		if it%2 == 0 {
+			var basis []c15Term
+			a := float64(rng.Intn(5)-2) / 2
+			for p := 0; p <= deg; p++ {
+				basis = append(basis, c15Term{Kind: 0, A: F64(a), P: p})
+			}
+			c := c15Case{Op: 0, Xs: toF64s(xs), Ys: toF64s(ints(n, -16, 16)), Basis: basis}
+			if it%4 == 0 {
+				c.HasW, c.W = true, toF64s(w)
+			} else { // n = k: the square system
+				c.Xs, c.Ys = c.Xs[:deg+1], c.Ys[:deg+1]
+			}
+			emit(c)
+		}
+	}
+	// ---- LOESS, span*n an exact integer with n NOT a power of two (span = 1/2, 1/4, 3/4, 1/8 ...) ----
+	for it := 0; it < 12*mul; it++ {
+		deg := rng.Intn(3)
+		den := []int{2, 4, 4, 8}[it%4]
+		num := 1 + rng.Intn(den-1)
+		n := den * (2 + rng.Intn(4)) // span*n = num*n/den, an integer
+		for num*n/den < deg+2 {
+			n += den
+		}
+		if n > 40 {
+			continue
+		}
+		xs := c15Xs(rng, n, 0)
+		if it%3 != 0 {
+			sort.Float64s(xs)
+		}
+		s := append([]float64{}, xs...)
+		sort.Float64s(s)
+		q := num * n / den
+		qs := []float64{s[0], s[n-1], s[n/3], s[0] - 0.25, s[n-1] + 0.5}
+		if q < n {
+			qs = append(qs, (s[0]+s[q])/2, (s[n-1-q]+s[n-1])/2, (s[(n-q)/2]+s[(n-q)/2+q])/2+1.0/64)
+		}
+		emit(c15Case{Op: 2, Xs: toF64s(xs), Ys: toF64s(ints(n, -8, 8)), Deg: deg, Span: F64(float64(num) / float64(den)), Qs: toF64s(qs)})
 	}
 	// ---- LOESS window width: span*n exactly an integer j, and span one ulp either side (ceil boundary);
 	// n = q+1 (the search has a single position to decide); n = q; queries far outside the data ----
